@@ -508,6 +508,8 @@ def check(ctx):
             key = '%s|%s|%s' % (kind, 'PAWN' if lang == 'PAWN' else 'any', optkey)
             if kind.startswith('opacity|after-indent'):
                 key = kind
+            elif kind.startswith('region-blank-lines'):
+                pass          # root cause = where the blank lines sit; the option set may be large
             elif kind.startswith('opacity') or len(small) > 3:
                 key = '%s|%s' % (kind, r['cid'])
             if kind.startswith('region-line-altered') and ':sql/' in r['cid']:
